@@ -134,7 +134,8 @@ def check_open(case):
             s = sep(direction, sd, a, b)
             args = (vel, s, 1.0, charge, E) if has_charge else (vel, s, E)
             nev += 1
-            extreme = E < TINY * scale or (not unbounded and hill > 0 and abs(E - hill) < TINY * hill)
+            # (the hill height is a difference of two energies of size |U|: 'within 2^-40 of it' is meant in units of |U|)
+            extreme = E < TINY * scale or (not unbounded and hill > 0 and abs(E - hill) < TINY * max(hill, scale))
             try:
                 t = pot.displacement(*args)
             except Exception as e:
@@ -478,7 +479,7 @@ def run(ctx):
     }
     res.assumptions = ["identity tolerance 1e-9 E + 1e-11 max|U| (the code forms U_now + E, so the budget is resolved "
                        "to eps |U|); budgets within 1e-6 of the hill height are excluded from the finite/infinite "
-                       "decision", "budgets below 2^-40 |U| or within 2^-40 of the hill height are 'extreme': failures "
+                       "decision", "budgets below 2^-40 |U| or within 2^-40 |U| of the hill height are 'extreme': failures "
                        "there are the recorded known finding (totality-extreme)"]
     return res
 
